@@ -180,6 +180,13 @@ def scenarios():
         "h4/app/wire.go": INJ + ("package main\n\nimport (\n\ttwo \"example.com/l/h4/foo2\"\n\t\"%s\"\n)\n\n"
                                  "func initN() int {\n\tpanic(wire.Build(wire.Value(two.Forty)))\n}\n\nfunc initS() string {\n\tpanic(wire.Build(two.NewS, wire.Value(two.Forty)))\n}\n") % W,
     }, "./h4/app", "n 42 s", ["C14", "C01"])
+    # variadic provider fed from a slice provider, variadic injector parameter consumed as a slice
+    add("H-variadic-provider-and-injector", "H", {
+        "h5/app/main.go": ("package main\n\nimport \"fmt\"\n\ntype Option string\ntype App struct {\n\tOpts []Option\n\tIDs  []string\n}\n\nfunc NewOptions() []Option { return []Option{\"a\", \"b\"} }\n"
+                           "func NewApp(ids []string, opts ...Option) *App { return &App{Opts: opts, IDs: ids} }\n\n"
+                           "func main() {\n\ta := initApp(\"x\", \"y\")\n\tb := initApp()\n\tfmt.Println(len(a.Opts), a.Opts[1], len(a.IDs), a.IDs[0], len(b.IDs), len(b.Opts))\n}\n"),
+        "h5/app/wire.go": INJ + ("package main\n\nimport \"%s\"\n\nfunc initApp(ids ...string) *App {\n\tpanic(wire.Build(NewOptions, NewApp))\n}\n") % W,
+    }, "./h5/app", "2 b 2 x 0 2", ["C01", "C02"])
     return S
 
 
